@@ -150,7 +150,7 @@ def enumerate_structures(max_nodes, max_links):
     return out
 
 
-def decorate(idx, struct, name=None):
+def decorate(idx, struct, name=None, maxN=3):
     """assign element kinds / segment counts / options by a deterministic rotation on idx."""
     n, edges, orig, dest = struct
     nodes = [f"N{i}" for i in range(n)]
@@ -159,7 +159,7 @@ def decorate(idx, struct, name=None):
         indeg[v] += 1
     links = []
     for j, (u, v) in enumerate(edges):
-        N = 1 + (idx + j) % 3
+        N = 1 + (idx + j) % maxN
         vsl = None
         r = (idx // 2 + j) % 5
         if r == 0:
@@ -184,11 +184,12 @@ def decorate(idx, struct, name=None):
 _ENUM_CACHE = {}
 
 
-def E(max_nodes, max_links):
-    key = (max_nodes, max_links)
+def E(max_nodes, max_links, maxN=3):
+    key = (max_nodes, max_links, maxN)
     if key not in _ENUM_CACHE:
         structs = enumerate_structures(max_nodes, max_links)
-        _ENUM_CACHE[key] = [decorate(i, s, f"e{max_nodes}{max_links}_{i:04d}") for i, s in enumerate(structs)]
+        tag = "" if maxN == 3 else f"n{maxN}"
+        _ENUM_CACHE[key] = [decorate(i, s, f"e{max_nodes}{max_links}{tag}_{i:04d}", maxN) for i, s in enumerate(structs)]
     return _ENUM_CACHE[key]
 
 
